@@ -22,6 +22,7 @@ FAMS = ['closed', 'closed_fin', 'closed_fin', 'pc', 'capitalists', 'federated', 
         'multi_currency_supply', 'multi_currency', 'gold']
 list_paths = econprops.list_paths
 simplifiers = econprops.simplifiers
+valid = econprops.valid_program
 
 
 def generate(seed, tier):
